@@ -37,6 +37,7 @@ func runC15(c *an.Ctx) {
 	ruleS3(c)
 	ruleS4(c)
 	ruleS6(c)
+	ruleS7(c)
 }
 
 func relationFuncs(c *an.Ctx) []*ssa.Function {
